@@ -35,6 +35,8 @@ type SchedSpec struct {
 	HotSites  []int    `json:"hot_sites,omitempty"`
 	HotReader bool     `json:"hot_reader,omitempty"`
 	First     int      `json:"first"`
+	Starve    int      `json:"starve,omitempty"`    // 1+task that stalls (0: none)
+	StarveAt  uint64   `json:"starve_at,omitempty"` // at this statement of one of its calls
 }
 
 type PoolSpec struct {
@@ -335,7 +337,7 @@ var opsC11 = []string{
 	"NewRawSuite", "NewSuite", "ListSuites", "IsKnownSuite", "SuiteConfigFromRaws",
 	"DecodeSecret", "GenerateHOTPURL", "GenerateTOTPURL", "ParseOTPAuthURL", "RandomSecret",
 	"ParseDecimalToBigEndian8", "LeftPadHex", "ParseDecimal64BigEndian", "ParseHexTimestamp", "ParseDecimalChallengeRFC6287",
-	"To8ByteBigEndian", "HexInputToOCRA", "InputValidate", "SuiteValidate", "FromStr",
+	"To8ByteBigEndian", "HexInputToOCRA", "InputValidate", "SuiteValidate", "FromStr", "SuiteChurn",
 }
 
 func genCall(t *rapid.T, prop string, nSharedP, nSharedF int) Call {
@@ -347,6 +349,9 @@ func genCall(t *rapid.T, prop string, nSharedP, nSharedF int) Call {
 		} else {
 			c.Op = rapid.SampledFrom([]string{"GenerateHOTP", "DecodeSecret", "GenerateOCRA"}).Draw(t, "op")
 		}
+	case "C13":
+		// the validators, with some generation in between for pool traffic
+		c.Op = rapid.SampledFrom([]string{"ValidateHOTP", "ValidateHOTP", "ValidateTOTP", "ValidateTOTP", "ValidateOCRA", "ValidateOCRA", "GenerateHOTP", "GenerateOCRA"}).Draw(t, "op")
 	default:
 		c.Op = rapid.SampledFrom(opsC11).Draw(t, "op")
 	}
@@ -431,6 +436,10 @@ func genCall(t *rapid.T, prop string, nSharedP, nSharedF int) Call {
 	case "LeftPadHex", "ParseHexTimestamp":
 		c.Str = rapid.OneOf(rapid.StringMatching(`[0-9a-fA-F]{0,20}`), rapid.SampledFrom([]string{"", "xyz", "123"})).Draw(t, "hex")
 		c.N = rapid.IntRange(0, 40).Draw(t, "width")
+	case "SuiteChurn":
+		// many DISTINCT unregistered suite names looked up twice in one history
+		c.N = rapid.IntRange(0, 3000).Draw(t, "churnBase")
+		c.Counter = uint64(rapid.SampledFrom([]int{20, 70, 140, 300, 600}).Draw(t, "churnCount"))
 	case "To8ByteBigEndian":
 		c.Counter = rapid.Uint64().Draw(t, "v")
 	case "HexInputToOCRA":
@@ -473,6 +482,11 @@ func genSched(t *rapid.T, nTasks int) SchedSpec {
 		}
 	}
 	s.First = rapid.IntRange(0, nTasks).Draw(t, "first")
+	if nTasks > 1 && weighted(t, "stalledCaller?", 2, 1) == 1 {
+		// one caller stalls at a chosen statement of a call and stays descheduled while the others run on
+		s.Starve = 1 + rapid.IntRange(0, nTasks-1).Draw(t, "starve")
+		s.StarveAt = uint64(rapid.IntRange(1, 120).Draw(t, "starveAt"))
+	}
 	// the scheduling point behind every chunk the random reader delivers can be hot too
 	if weighted(t, "hotReader?", 2, 1) == 1 {
 		s.HotReader = true
@@ -540,6 +554,13 @@ func GenPlan(t *rapid.T, prop string) *Plan {
 		}
 		var calls []Call
 		for j := 0; j < nc; j++ {
+			if i > 0 && ((prop == "C13" && weighted(t, "sameAsOtherTaskC13?", 1, 1) == 1) || (prop != "C13" && weighted(t, "sameAsOtherTask?", 6, 1) == 1)) {
+				// the very same call issued by several tasks (what a cache or a
+				// "collapse identical requests" layer keys on)
+				other := p.Tasks[rapid.IntRange(0, i-1).Draw(t, "copyTask")]
+				calls = append(calls, other[rapid.IntRange(0, len(other)-1).Draw(t, "copyCall")])
+				continue
+			}
 			if longHistory && j >= 12 {
 				// long histories repeat a short palette (keeps plan generation and shrinking cheap)
 				calls = append(calls, calls[rapid.IntRange(0, 11).Draw(t, "repeatOf")])
